@@ -113,7 +113,7 @@ class Node:
                     self.yaml_node))
             if self.yaml_node.tag == 'tag:yaml.org,2002:null':
                 return None
-        except (ValueError, KeyError, IndexError):
+        except (ValueError, KeyError, IndexError, OverflowError):
             # tagged (explicitly, or by a liberal implicit resolver
             # pattern) as something it cannot be parsed as
             raise RecognitionError('{}\nInvalid value for {}'.format(
